@@ -5,78 +5,102 @@ import PyaModel.Proofs.C12
 Property theorems only. What is (and is not) carried by a theorem here — see DESIGN §6/C12:
 
 * **Whole-program crash-freedom is not a theorem.** It is searched by the grammar fuzzer of
-  harness/props/c12.py. The one crash mechanism that has a model is the dispatch of
-  `annotations._Visitor` (Core/AnnVisit.lean, `annVisit`): section 1.
+  harness/props/c12.py. The one crash mechanism that had a model — the dispatch of
+  `annotations._Visitor` — has been repaired (9c1e869); section 1 states the new behaviour at full
+  strength and keeps the old one as regression witnesses.
 * **Diagnostic well-formedness** is proved on the emit model (Core/Render.lean, `check` = C11's filter
   plus the construction of the `Failure` record): section 2.
 * **Value API**: the models `ca`, `unite`, `subst` (Core/Assign.lean, Core/Union.lean) are total
   functions by construction; section 3 states the structural facts behind that (every sub-value is
   smaller; `unite` / `subst` do not blow up; a recursion budget equal to the nesting depth suffices).
 
-Exception classes (Spec/Total.lean): `D12_unsupportedAnnotNode` on annotation expressions;
+Exception classes (Spec/Total.lean): `D12_unsupportedAnnotNode` (only for the pre-9c1e869 visitor `oldAnnVisit`);
 `D12_noPosition`, `D12_noCode`, `D12_emptyMessage` on `show_error` calls.
 -/
 namespace Pya.C12
 open Pya Pya.C11
 
-/-! ## 1. the annotation visitor (`annotations._Visitor`, generic_visit raises) -/
+/-! ## 1. the annotation visitor (`annotations._Visitor`)
 
-/-- **Full statement** (false of the pinned pyanalyze: `starred_witness`): visiting an annotation
-expression never raises `NotImplementedError`. -/
-def AnnTotal (sup : String → Bool) : Prop := ∀ e : AExpr, ∃ c, annVisit sup e = .ok c
+Since fix 9c1e869 `generic_visit` reports `"Unsupported syntax in annotation: <Kind>"` and returns
+`Any` instead of raising; `annVisit` (Core/AnnVisit.lean) returns the kinds reported, in order, and the
+callee class of the value. `oldAnnVisit` is the visitor before the fix: its theorems are kept as
+regression witnesses (`old_…`). -/
 
-/-- **No crash outside `unsupportedAnnotNode`**: for every table of `visit_` methods and every
-annotation expression (any depth) that contains no node kind missing from the table, the visitor
-returns a value. -/
-theorem annVisit_total_partial (sup : String → Bool) (e : AExpr)
-    (hD : D12_unsupportedAnnotNode sup e = false) : ∃ c, annVisit sup e = .ok c :=
-  annVisit_ok sup e hD
+/-- **Full statement** — now true: visiting an annotation expression always returns (a list of
+reported kinds and a value). The model has no raising outcome any more because the code has none; that
+the *real* visitor never raises is what the `annot` correspondence stream checks (any exception there
+is a new violation). -/
+def AnnTotal (sup : String → Bool) : Prop := ∀ e : AExpr, ∃ errs c, annVisit sup e = (errs, c)
 
-/-- Conversely, whenever the visitor raises, the kind it names has no `visit_` method and occurs in
-the expression: there is no other way for the modelled dispatch to fail. Full strength. (Since fix
-0e3888a the constructor calls inside `visit_Call` report instead of raising, so this is also the only way
-the *real* visitor raises; the `annot` correspondence stream treats any other exception as a disagreement.) -/
-theorem annVisit_raise_unsupported (sup : String → Bool) (e : AExpr) (k : String)
-    (h : annVisit sup e = .raise k) : sup k = false ∧ k ∈ e.kinds :=
-  annVisit_raise sup e k h
+/-- **C12 for the annotation visitor, full strength**: no exception class is left. -/
+theorem annVisit_total (sup : String → Bool) : AnnTotal sup := fun _ => ⟨_, _, rfl⟩
 
-/-- Hence a visitor with a method for every kind is total (what a repair of `generic_visit` achieves). -/
-theorem annVisit_total_of_complete (sup : String → Bool) (hall : ∀ k, sup k = true) : AnnTotal sup := by
-  intro e
-  rcases Res.cases' (annVisit sup e) with ⟨k, hk⟩ | h
-  · have := (annVisit_raise sup e k hk).1
-    rw [hall k] at this; cases this
-  · exact h
+/-- Every kind reported as unsupported has no `visit_` method and occurs in the expression: a node
+outside the supported set produces exactly the errors the model lists, nothing else is reported by
+this mechanism. Full strength. -/
+theorem annVisit_errors_unsupported (sup : String → Bool) (e : AExpr) (k : String)
+    (h : k ∈ (annVisit sup e).1) : sup k = false ∧ k ∈ e.kinds :=
+  annVisit_errors sup e k h
 
-/-- **Witness for `unsupportedAnnotNode`**: the quoted annotation `"tuple[int, *tuple[str, ...]]"`
-(a `Subscript` whose slice is a `Tuple` containing a `Starred`) is in the class and the visitor of
-the pinned tree raises on the `Starred` node. -/
-theorem starred_witness :
-    D12_unsupportedAnnotNode pinnedSup (.sub (.name none) (.tuple [.name none, .other "Starred"])) = true ∧
-    annVisit pinnedSup (.sub (.name none) (.tuple [.name none, .other "Starred"])) = .raise "Starred" := by
-  constructor <;> decide
+/-- An annotation without unsupported node kinds is visited without any such report. -/
+theorem annVisit_clean_of_supported (sup : String → Bool) (e : AExpr)
+    (h : D12_unsupportedAnnotNode sup e = false) : ∃ c, annVisit sup e = ([], c) :=
+  annVisit_clean sup e h
 
-/-- Hence the full statement fails for the pinned table. -/
-theorem annTotal_false : ¬ AnnTotal pinnedSup := fun h => by
-  obtain ⟨c, hc⟩ := h (.sub (.name none) (.tuple [.name none, .other "Starred"]))
-  rw [starred_witness.2] at hc
-  cases hc
+/-- **The repair changed nothing else**: where the old visitor raised on a node of kind `k`, the new one
+reports `k` first (and goes on); where the old one returned a value, the new one returns the same
+callee class and reports nothing. Full strength (every table, every expression). -/
+theorem old_new_agree (sup : String → Bool) (e : AExpr) :
+    (∀ k, oldAnnVisit sup e = .raise k → ∃ rest, (annVisit sup e).1 = k :: rest) ∧
+    (∀ c, oldAnnVisit sup e = .ok c → annVisit sup e = ([], c)) := by
+  have h := old_new sup e
+  constructor
+  · intro k hk; rw [hk] at h; exact h
+  · intro c hc; rw [hc] at h; exact h
 
 /-- Regression obligation over the regenerated table: every `visit_` method of the pinned tree still
-exists (a method that is *added* — a repair — does not break this; one that disappears does). -/
+exists (a node kind that drops out of the table is now *reported* for every annotation using it). -/
 theorem liveSup_covers_pinned :
     ∀ k ∈ ["Attribute", "BinOp", "Call", "Constant", "Dict", "Expr", "List", "Name", "Set", "Subscript", "Tuple", "UnaryOp"],
       liveSup k = true := by decide
 
-/-! Non-vacuity: `Optional[mod.T] | NewType("N", int)` uses seven supported kinds, is outside the class,
-and is visited successfully; an unsupported node below a callee that is *not* one of the special
-constructors is in the class but never reached (`int(lambda: 1)`). -/
+/-! ### regression witnesses: the visitor before fix 9c1e869 (`oldAnnVisit`) -/
+
+/-- the old full statement -/
+def OldAnnTotal (sup : String → Bool) : Prop := ∀ e : AExpr, ∃ c, oldAnnVisit sup e = .ok c
+
+/-- old visitor: no crash outside `unsupportedAnnotNode` -/
+theorem old_annVisit_total_partial (sup : String → Bool) (e : AExpr)
+    (hD : D12_unsupportedAnnotNode sup e = false) : ∃ c, oldAnnVisit sup e = .ok c :=
+  oldAnnVisit_ok sup e hD
+
+/-- old visitor: a raise names an unsupported kind occurring in the expression -/
+theorem old_annVisit_raise_unsupported (sup : String → Bool) (e : AExpr) (k : String)
+    (h : oldAnnVisit sup e = .raise k) : sup k = false ∧ k ∈ e.kinds :=
+  oldAnnVisit_raise sup e k h
+
+/-- `"tuple[int, *tuple[str, ...]]"`: the old visitor raised on the `Starred` node; the new one reports
+exactly that kind once and returns. -/
+theorem old_starred_witness :
+    D12_unsupportedAnnotNode pinnedSup (.sub (.name none) (.tuple [.name none, .other "Starred"])) = true ∧
+    oldAnnVisit pinnedSup (.sub (.name none) (.tuple [.name none, .other "Starred"])) = .raise "Starred" ∧
+    annVisit pinnedSup (.sub (.name none) (.tuple [.name none, .other "Starred"])) = (["Starred"], none) := by
+  refine ⟨?_, ?_, ?_⟩ <;> decide
+
+/-- hence the old full statement was false -/
+theorem old_annTotal_false : ¬ OldAnnTotal pinnedSup := fun h => by
+  obtain ⟨c, hc⟩ := h (.sub (.name none) (.tuple [.name none, .other "Starred"]))
+  rw [old_starred_witness.2.1] at hc
+  cases hc
+
+/-! Non-vacuity: several unsupported nodes are all reported, in visiting order; an unsupported node
+below a callee that is not one of the special constructors is never reached. -/
+example : annVisit pinnedSup (.tuple [.other "Lambda", .name none, .sub (.name none) (.other "Slice")]) = (["Lambda", "Slice"], none) := by decide
+example : annVisit pinnedSup (.call (.name none) [.other "Lambda"] []) = ([], none) := by decide
+example : annVisit pinnedSup (.call (.name (some .typeVar)) [.const, .other "Lambda"] [.other "IfExp"]) = (["Lambda", "IfExp"], none) := by decide
 example : D12_unsupportedAnnotNode pinnedSup
     (.binop true (.sub (.name none) (.attr (.name none) none)) (.call (.name (some .newType)) [.const, .name none] [])) = false := by decide
-example : annVisit pinnedSup
-    (.binop true (.sub (.name none) (.attr (.name none) none)) (.call (.name (some .newType)) [.const, .name none] [])) = .ok none := by decide
-example : D12_unsupportedAnnotNode pinnedSup (.call (.name none) [.other "Lambda"] []) = true ∧
-    annVisit pinnedSup (.call (.name none) [.other "Lambda"] []) = .ok none := by constructor <;> decide
 
 /-! ## 2. diagnostics are well-formed (`BaseNodeVisitor.show_error`) -/
 
